@@ -75,6 +75,11 @@ def build(r):
             perm[-1], perm[-2] = perm[-2], perm[-1]
             maps[1] = f"affine_map<({dims}) -> ({', '.join(f'd{i}' for i in perm)})>"
             shapes[1] = [shape[i] for i in perm]
+        elif r.get("const_row") is not None:
+            # the second input is one row of a larger buffer: a dimension-independent, non-zero constant index
+            c, rows = r["const_row"]
+            maps[1] = f"affine_map<({dims}) -> ({c}, {dims})>"
+            shapes[1] = [rows] + list(shape)
         tys = []
         for i in range(3):
             l = _strided(r["given"][i], shapes[i]) if lay == "given" else None
@@ -170,14 +175,16 @@ def layout_fn(mt):
         rec = GT.tsl_to_recipe(lay.data)
         if GT.is_dynamic(rec) or rec["offset"] is None:
             raise Outside("dynamic layout")
-        vecs = [GT.dim_vector(d) for d in rec["dims"]]
-        if [len(v) for v in vecs] != shape:
-            return None, elsize, f"tsl covers {[len(v) for v in vecs]} != shape {shape}"
+        # per dimension: index = outer_digit * inner_size + inner_index; the outermost digit is not wrapped (reference addr of C10),
+        # so the function is also defined where the layout's bounds do not cover the operand's shape (that is C09's business, not C02's)
+        inner_vecs = [GT.dim_vector(d[1:]) for d in rec["dims"]]
+        outer_steps = [d[0][0] for d in rec["dims"]]
 
         def f(idx):
             a = np.full(idx.shape[:-1], rec["offset"], dtype=np.int64)
-            for d, v in enumerate(vecs):
-                a = a + v[idx[..., d]]
+            for d, (v, s0) in enumerate(zip(inner_vecs, outer_steps)):
+                i = idx[..., d]
+                a = a + (i // len(v)) * s0 + v[i % len(v)]
             return a
 
         return f, elsize, "tsl"
@@ -477,7 +484,11 @@ def recipe(draw, tier):
         last = draw(st.sampled_from([4, 8, 12, 16, 32, 64, 20, 4, 8, 16] + ([128, 256] if big else []) + [2]))
         r["shape"] = [draw(st.sampled_from([1, 2, 3, 4, 5, 8])) for _ in range(rank - 1)] + [last]
         r["transpose_in"] = draw(st.integers(0, 3)) == 0
+        rows = draw(st.integers(2, 5))
+        r["const_row"] = [draw(st.integers(0, rows - 1)), rows] if draw(st.integers(0, 3)) == 0 else None
         r["given"] = [draw(_given(rank)) for _ in range(3)]
+        if r["const_row"] is not None and not r["transpose_in"]:
+            r["given"][1] = draw(_given(rank + 1))
         if r["transpose_in"] and rank >= 2:
             # the transposed input needs the (swapped) last dim to be schedulable too
             r["shape"][-2] = draw(st.sampled_from([4, 8, 12]))
